@@ -227,7 +227,7 @@ def case_parabola_2d(ctx, n):
 
 def cases(tier):
     cs = [Case("shift_1d_n2", "case_shift_1d", {"n": 2}), Case("shift_1d_n4", "case_shift_1d", {"n": 4}, timeout_s=2400)]
-    for (r, c, ax) in ((2, 4, 1), (4, 2, 0), (2, 4, -1), (2, 2, 0)) if tier == "quick" else ((2, 4, 1), (4, 2, 0), (2, 4, -1), (2, 2, 0), (2, 2, 1), (3, 4, 1), (4, 3, 0)):
+    for (r, c, ax) in ((2, 4, 1), (4, 2, 0), (2, 4, -1), (2, 2, 0)) if tier == "quick" else ((2, 4, 1), (4, 2, 0), (2, 4, -1), (2, 2, 0), (2, 2, 1), (3, 4, 1), (4, 3, 0), (4, 4, 0), (4, 4, 1), (1, 4, 1), (4, 1, 0)):
         cs.append(Case(f"shift_2d_{r}x{c}_axis{ax}", "case_shift_2d", {"rows": r, "cols": c, "axis": ax}, timeout_s=2400))
     for n, imax in ((5, 1), (5, 2), (5, 3), (4, 0), (4, 3)):
         cs.append(Case(f"parabola_1d_n{n}_imax{imax}", "case_parabola_1d", {"n": n, "imax": imax}, timeout_s=1500))
